@@ -81,7 +81,8 @@ def start_value(kind, dom, rng, which=0):
     raise ValueError(kind)
 
 
-def make(family, params, doms, rng, jump_interval=1, window=None, start_step=1, successive=None):
+def make(family, params, doms, rng, jump_interval=1, window=None, start_step=1, successive=None,
+         componentwise=False):
     """Construct a real proposal instance of `family` over `params`.
 
     doms: dict param -> (lo, hi) (for bounded kinds).  window: adaptation duration.
@@ -111,7 +112,8 @@ def make(family, params, doms, rng, jump_interval=1, window=None, start_step=1, 
     if f == 'ss_adaptive_normal':
         return cls(params, cov=cov, **kw, **nonadaptive_dur)
     if f == 'at_adaptive_normal':
-        return cls(params, T, diagonal=rng.random() < 0.5, start_step=start_step, **kw)
+        return cls(params, T, diagonal=rng.random() < 0.5, componentwise=componentwise,
+                   start_step=start_step, **kw)
     if f == 'bounded_normal':
         return cls(params, bnds, cov=cov, **kw, **nonadaptive_dur)
     if f == 'adaptive_bounded_normal':
@@ -119,7 +121,7 @@ def make(family, params, doms, rng, jump_interval=1, window=None, start_step=1, 
     if f == 'ss_adaptive_bounded_normal':
         return cls(params, bnds, cov=cov, **kw, **nonadaptive_dur)
     if f == 'at_adaptive_bounded_normal':
-        return cls(params, bnds, T, start_step=start_step, **kw)
+        return cls(params, bnds, T, componentwise=componentwise, start_step=start_step, **kw)
     if f == 'angular':
         return cls(params, cov=cov, **kw, **nonadaptive_dur)
     if f == 'adaptive_angular':
@@ -127,7 +129,7 @@ def make(family, params, doms, rng, jump_interval=1, window=None, start_step=1, 
     if f == 'ss_adaptive_angular':
         return cls(params, cov=cov, **kw, **nonadaptive_dur)
     if f == 'at_adaptive_angular':
-        return cls(params, T, start_step=start_step, **kw)
+        return cls(params, T, componentwise=componentwise, start_step=start_step, **kw)
     if f == 'discrete':
         return cls(params, cov=cov, successive=successive, **kw, **nonadaptive_dur)
     if f == 'ss_adaptive_discrete':
